@@ -6,7 +6,7 @@ import ioops
 import iomodel
 
 ESCALATE_MAX = 60000      # cases drawn at most when a changed source file makes the quick tier look harder
-RULE = ("random well-formed textgrids as in C01, labels and tier names additionally drawn from the formats' own keywords "
+RULE = ("random well-formed textgrids as in C01 (a fifth on negative times; names with surrounding blanks and line breaks), labels and tier names additionally drawn from the formats' own keywords "
         "('item [2]:', 'intervals [1]:', '\"IntervalTier\"', 'text = \"x\"', 'ooTextFile short', ...) x includeBlankSpaces x "
         "optional minTimestamp/maxTimestamp overrides at / beyond the data span; each textgrid is written in all four "
         "formats and every text is decoded by the independent reader of harness/ioops.py (free-standing-token rule of "
